@@ -10,6 +10,8 @@ from engine import pat
 from engine.util import own_nodes, calls_with_nodes, where
 
 RULES = {
+    "R-01.16": "names inside records are read for the relativity the caller chose: every text reader passes origin, relativize and relativize_to to each name-reading call (the rule function of C05 R-05.6, run here directly because C05 adopts C01 rules) - otherwise `$ORIGIN`-relative text silently denotes another name",
+    "R-01.15": "one label limit everywhere: every `if <length test>: raise LabelTooLong` of dns/name.py (the validator of every constructor, and the pure-ASCII shortcut of the IDNA 2008 encoder), evaluated by the checker at lengths 63 and 64, is (False, True) - a 63-octet label is legal on every route into a name",
     "R-01.14": "Unicode text is escaped like ASCII text: every decode() of the IDNA codec family returns _escapify(<label text>), the result of super().decode(), or the empty string - a label that contains '.' or '\\\\' printed unescaped by to_unicode() parses back as different labels",
     "R-01.1": "Name.labels is written only by __init__ and __setstate__, and every path from that store to a normal exit passes _validate_labels(self.labels); no Name is made by __new__/copy that skips the gate",
     "R-01.2": "_validate_labels raises LabelTooLong exactly for len(label) >= 64 and NameTooLong exactly for sum(len+1) >= 256",
@@ -415,6 +417,32 @@ def run(model, rep, tier):
                       f"`return {src(v)[:60]}` hands out label text without _escapify: a label holding '.' or a backslash prints as if it were several labels (to_unicode() output no longer parses back to the same name)",
                       stmt="decode-escapes")
     rep.floor("R-01.14", n14, 7)
+    # ---------------------------------------------------------------- R-01.15
+    from engine.minieval import evaluate as _ev15, Unsupported as _Un15
+    n15 = 0
+    for f15 in sorted(model.all_functions(), key=lambda g: g.qualname):
+        if f15.module.name != "dns.name":
+            continue
+        for nd in ast.walk(f15.node):
+            if not (isinstance(nd, ast.If) and len(nd.body) == 1 and isinstance(nd.body[0], ast.Raise) and nd.body[0].exc is not None and src(nd.body[0].exc).split("(")[0] == "LabelTooLong"):
+                continue
+            if not all(isinstance(c_, ast.Compare) and any(isinstance(k_, ast.Constant) and isinstance(k_.value, int) for k_ in [c_.left] + c_.comparators) for c_ in ast.walk(nd.test) if isinstance(c_, ast.Compare)) \
+                    or not any(isinstance(c_, ast.Compare) for c_ in ast.walk(nd.test)):
+                continue  # not a numeric length test (e.g. the message of a foreign exception)
+            n15 += 1
+            keys = {src(c_) for c_ in ast.walk(nd.test) if isinstance(c_, ast.Call) and dotted(c_.func) == "len"} or {x.id for x in ast.walk(nd.test) if isinstance(x, ast.Name)}
+            try:
+                if len(keys) != 1:
+                    raise _Un15(f"length expressions {sorted(keys)}")
+                k15 = next(iter(keys))
+                verdict = [bool(_ev15(nd.test, {k15: v})) for v in (63, 64)]
+                rep.check(verdict == [False, True], "R-01.15", f15.qualname, where(f15, nd), f"`{src(nd.test)}`: 63 accepted, 64 refused",
+                          f"`{src(nd.test)}` is {verdict} at lengths 63, 64 (expected [False, True]): a legal 63-octet label is refused on this route (or a 64-octet one accepted) while the other constructors disagree", stmt="label-limit")
+            except _Un15 as e:
+                rep.blind("R-01.15", f15.qualname, where(f15, nd), f"label length test not evaluable: {e}", stmt="label-limit")
+    rep.floor("R-01.15", n15, 2)
+    from rules.c05 import check_text_name_triple
+    check_text_name_triple(model, rep, "R-01.16")
     rep.meta["explanation"] = (
         "Must-pass-through and who-may-write rules for the validation gate, normalised-bound rules for the 63/255 limits and the compression offset, a well-founded-measure argument for "
         "wire decoding (pointer strictly decreasing, loop consumes), and set comparison between the octets readers treat specially and the octets the writer escapes (both folded from the source). "
@@ -422,6 +450,10 @@ def run(model, rep, tier):
 
 
 WITNESSES = [
+    {"id": "c01-idna2008-ascii-label-63-refused", "rule": "R-01.15", "file": "dns/name.py", "expect": "fires",
+     "old": "            if len(encoded) > 63:", "new": "            if len(encoded) >= 63:"},
+    {"id": "c01-twin-idna2008-ascii-label-limit-flipped", "rule": "R-01.15", "file": "dns/name.py", "expect": "silent",
+     "old": "            if len(encoded) > 63:", "new": "            if 64 <= len(encoded):"},
     {"id": "c01-idna2003-strict-decode-unescaped", "rule": "R-01.14", "file": "dns/name.py", "expect": "fires",
      "old": "            return _escapify(encodings.idna.ToUnicode(label))", "new": "            return encodings.idna.ToUnicode(label)"},
     {"id": "c01-twin-idna2003-decode-via-local", "rule": "R-01.14", "file": "dns/name.py", "expect": "silent",
